@@ -39,12 +39,14 @@ pub fn run(engine: &str, toks: Vec<Tok>) -> Vec<Tok> {
         "c04_front" => c04::front(toks),
         "c05_select" => c05::select(toks),
         "c05_front" => c05::front(toks),
+        "c05_front_quic" => c05::front_quic(toks),
         "c05_history" => c05::history(toks),
         "c05_codec" => c05::codec(toks),
         "c06_decode" => c06::decode(toks),
         "c06_encode" => c06::encode(toks),
         "c07_run" => c07::run(toks),
         "c07_read_error" => c07::read_error(toks),
+        "c07_front" => c07::front(toks),
         "c08_run" => c08::run(toks),
         "c14_session" => c14s::run(toks),
         "c14_establish" => c14s::establish(toks),
